@@ -19,7 +19,8 @@ RULE = ("seeded histories (<=10 quick / <=16 thorough operations) over consume (
         "regenerate, transfer_to (both directions and to self), convert_nadh_to_atp, enter/exit dormancy, "
         "apply_debt_interest, reset on two real ATP_Stores from a configuration grid that includes zero capacities and an "
         "on_state_change collaborator that is absent, recording or raising on chosen states; "
-        "amounts are boundary-relative (balance, balance+-1, capacity, atp+nadh, remaining debt room) or absolute; "
+        "amounts are boundary-relative (balance, balance+-1, capacity, atp+nadh, remaining debt room) or absolute, "
+        "7 % of the histories with capacities and amounts lifted beyond 2**53; "
         "non-trivial = history that exercised >= 2 of {NADH top-up, debt, starvation/dormancy gating, clamp at capacity, "
         "zero-capacity store}; distinct = distinct (configuration, operation list)")
 COMPONENTS = {"real": ["operon_ai.state.metabolism.ATP_Store (two instances)"],
@@ -29,7 +30,8 @@ ASSUMPTIONS = ["non-negative integer arguments only", "balances left above capac
                "an exception raised by the on_state_change collaborator is the caller's own: that call's return value is not "
                "judged, the ledger clauses (nothing created, limits respected, charge is 0 or exactly the cost) still are"]
 EXPECT_PROBES = ("nadh_topup", "debt_taken", "gated", "clamped", "zero_capacity", "debt_with_topup", "nadh_debt",
-                 "interest_applied", "transfer_ok", "callback_raised", "interest_allowance_reset_after_repayment")
+                 "interest_applied", "transfer_ok", "callback_raised", "interest_allowance_reset_after_repayment",
+                 "amounts_beyond_2**53")
 
 CUR = {"atp": EnergyType.ATP, "gtp": EnergyType.GTP, "nadh": EnergyType.NADH}
 
@@ -82,6 +84,18 @@ def gen(rng, tier, i):
             cycle += [["regenerate", 0, ["abs", rng.choice([50, 200])], "atp"] for _ in range(rng.randint(1, 2))]
         cycle += [["consume", 0, ["room", rng.choice([1, 5, 10])], "atp", True, rng.choice([0, 5, 10])]]
         ops = ops[:rng.randint(0, 2)] + cycle + ops[-rng.randint(0, 2):]
+    if rng.random() < 0.07:
+        # magnitude: the ledger is integer arithmetic, so the clauses are the same far beyond 2**53 (where a detour
+        # through a float stops being exact); every non-zero capacity and half of the absolute amounts are lifted
+        base = rng.choice([2 ** 53 + 1, 2 ** 53 + 3, 2 ** 60 + 129, 10 ** 18 + 7, 2 ** 64 + 3, 10 ** 30 + 1])
+        for c in stores:
+            for key in ("budget", "gtp", "nadh", "max_debt"):
+                if c[key] and rng.random() < 0.8:
+                    c[key] += base * rng.choice([1, 1, 2, 3])
+        for op in ops:
+            for a in op:
+                if isinstance(a, list) and a and a[0] == "abs" and a[1] and rng.random() < 0.5:
+                    a[1] += base * rng.choice([1, 1, 2])
     return {"config": {"stores": stores}, "ops": ops}
 
 
@@ -166,6 +180,8 @@ def run(plan, k):
     int_at_inflow = [0, 0]
     feats = set()
     k.key = [cfgs, plan["ops"]]
+    if any(c[key] > 2 ** 53 for c in cfgs for key in ("budget", "gtp", "nadh", "max_debt")):
+        k.probe("amounts_beyond_2**53")
     for c in cfgs:
         if c["budget"] == 0 and c["gtp"] == 0:
             feats.add("zero_capacity")
